@@ -7,10 +7,6 @@ import KafkaVerif.Lemmas.WriterClose
 namespace KV.C09
 open KV.WriterClose
 
-theorem hasPW_elim {s : State} {i : Nat} {p : PW → Bool} (h : hasPW s i p = true) :
-    ∃ x ∈ s.writers, x.pid = i ∧ p x = true := by
-  simp only [hasPW, List.any_eq_true, Bool.and_eq_true, decide_eq_true_eq] at h
-  exact h
 
 /-- Every internal event of a closed (repaired) Writer strictly decreases the measure `mu`. -/
 theorem measure_decreases (cfg : Cfg) (s s' : State) (e : Event)
@@ -32,7 +28,7 @@ theorem measure_decreases (cfg : Cfg) (s s' : State) (e : Event)
       apply mu_updCalls_lt _ _ _ _ _ _ h
       intro x hx
       simp only [decide_eq_true_eq] at hx
-      simp [callW, phaseW, hx, hclosed]
+      simp [callW, phaseW, hx]
     · simp at hstep
   | early c r =>
     simp only [step, Option.ite_none_right_eq_some, Option.some.injEq] at hstep
@@ -105,7 +101,7 @@ theorem measure_decreases (cfg : Cfg) (s s' : State) (e : Event)
     split at hstep
     · rename_i h
       injection hstep with hs; subst hs
-      obtain ⟨x, hx, hi, hp⟩ := hasPW_elim h
+      obtain ⟨x, hx, hi, hp⟩ := hasPW_mem h
       apply mu_updPWs_lt
       · intro y hy
         simp only [Bool.and_eq_true, decide_eq_true_eq] at hy
@@ -120,7 +116,7 @@ theorem measure_decreases (cfg : Cfg) (s s' : State) (e : Event)
     · split at hstep
       · rename_i h
         injection hstep with hs; subst hs
-        obtain ⟨x, hx, hi, hp⟩ := hasPW_elim h
+        obtain ⟨x, hx, hi, hp⟩ := hasPW_mem h
         apply mu_updPWs_lt
         · intro y hy
           simp only [Bool.and_eq_true, decide_eq_true_eq] at hy
@@ -134,7 +130,7 @@ theorem measure_decreases (cfg : Cfg) (s s' : State) (e : Event)
     split at hstep
     · rename_i h
       injection hstep with hs; subst hs
-      obtain ⟨x, hx, hi, hp⟩ := hasPW_elim h
+      obtain ⟨x, hx, hi, hp⟩ := hasPW_mem h
       have key : ∀ (b : Batch) (k : Nat), senderW cfg (attemptNext cfg b k o) < senderW cfg (.sending b k) ∧
           attemptNext cfg b k o ≠ .exited := by
         intro b k
@@ -183,5 +179,89 @@ theorem measure_decreases (cfg : Cfg) (s s' : State) (e : Event)
         simpa [mu, updPWs] using this
       · simp at hstep
     · simp at hstep
+
+/-! ### D1: the unrepaired protocol has a reachable state in which Close waits forever -/
+
+/-- original code: `batchMessages` does not re-check `w.closed` -/
+def d1Cfg : Cfg := ⟨3, 1, false, false⟩
+
+/-- WriteMessages passes enter(), Close runs to its wait while the call is inside its metadata lookup, then the
+call creates a partition writer whose queue nobody closes; the message is written and acknowledged, the call
+returns nil — and the sender goroutine of the new partition writer waits in `batchQueue.Get` forever. -/
+def d1Trace : List Event :=
+  [.callBegin 1 [(10, 0)] false, .enter 1, .metaReq 1, .closeBegin, .closeMark, .metaRel 1, .batch 1,
+   .timer 0, .get 0, .attempt 0 .ok, .complete 0, .leave 1 .nil, .ret 1]
+
+theorem close_stuck_counterexample :
+    ∃ s, Reachable d1Cfg s ∧ s.close = 2 ∧ step d1Cfg s .closeReturn = none ∧
+      (∀ e, e.internal = true → step d1Cfg s e = none) ∧
+      (∀ c ∈ s.calls, c.phase = .returned .nil) := by
+  have h : (run d1Cfg State.init d1Trace).map
+      (fun s => stuck d1Cfg s && s.calls.all (fun c => c.phase = .returned .nil)) = some true := by decide
+  cases hr : run d1Cfg State.init d1Trace with
+  | none => simp [hr] at h
+  | some s =>
+    simp only [hr, Option.map_some, Option.some.injEq, Bool.and_eq_true, stuck, decide_eq_true_eq,
+      Option.isNone_iff_eq_none, List.all_eq_true] at h
+    obtain ⟨⟨⟨h1, h2⟩, h3⟩, h4⟩ := h
+    refine ⟨s, ⟨d1Trace, hr⟩, h1, h2, ?_, h4⟩
+    intro e he
+    cases hs : step d1Cfg s e with
+    | none => rfl
+    | some s' =>
+      have := h3 e (candidates_complete d1Cfg s s' e he hs)
+      simp [hs] at this
+
+/-- the repaired protocol does not have this behaviour: the late `batchMessages` is refused … -/
+theorem d1_trace_refused_when_fixed : run { d1Cfg with fixed := true } State.init d1Trace = none := by decide
+
+/-- … with io.ErrClosedPipe, and Close returns -/
+theorem d1_schedule_fixed_close_returns :
+    (run { d1Cfg with fixed := true } State.init
+      [.callBegin 1 [(10, 0)] false, .enter 1, .metaReq 1, .closeBegin, .closeMark, .metaRel 1, .batch 1,
+       .ret 1, .closeReturn]).map (fun s => (s.close, s.calls.map (·.phase))) =
+      some (3, [.returned .closedPipe]) := by decide
+
+/-! ### use after close, context cancellation (single steps) -/
+
+/-- `enter` on a closed writer refuses the call with io.ErrClosedPipe (and does not touch the wait group) -/
+theorem enter_after_close_ErrClosedPipe (cfg : Cfg) (s s' : State) (c : Nat) (hclosed : s.closed = true)
+    (hstep : step cfg s (.enter c) = some s') :
+    (∀ x ∈ s.calls, x.id = c → x.phase = .invoked → { x with phase := .left .closedPipe } ∈ s'.calls) ∧
+    (∀ y ∈ s'.calls, y.phase = .entered → y ∈ s.calls) := by
+  simp only [step, Option.ite_none_right_eq_some, Option.some.injEq] at hstep
+  obtain ⟨_, rfl⟩ := hstep
+  constructor
+  · intro x hx hc hp
+    simp only [updCalls, List.mem_map]
+    exact ⟨x, hx, by simp [hc, hp, hclosed]⟩
+  · intro y hy hp
+    simp only [updCalls, List.mem_map] at hy
+    obtain ⟨x, hx, rfl⟩ := hy
+    by_cases hq : (decide (x.id = c) && decide (x.phase = Phase.invoked)) = true
+    · rw [if_pos hq] at hp
+      simp [hclosed] at hp
+    · rw [if_neg hq]
+      exact hx
+
+/-- a call blocked in its metadata lookup or waiting for its batches can return the context's error as soon as
+its context is cancelled -/
+theorem ctx_returns (cfg : Cfg) (s : State) (x : Call) (hx : x ∈ s.calls) (hc : x.cancelled = true) :
+    (x.phase = .entered → (step cfg s (.early x.id .ctxErr)).isSome) ∧
+    (x.phase = .waiting → (step cfg s (.leave x.id .ctxErr)).isSome) := by
+  constructor
+  · intro hp
+    have : hasCall s x.id (fun y => decide (y.phase = .entered) && y.cancelled) = true := by
+      simp only [hasCall, List.any_eq_true]
+      exact ⟨x, hx, by simp [hp, hc]⟩
+    simp [step, this]
+  · intro hp
+    have : hasCall s x.id (fun y => decide (y.phase = .waiting) && y.cancelled) = true := by
+      simp only [hasCall, List.any_eq_true]
+      exact ⟨x, hx, by simp [hp, hc]⟩
+    simp [step, this]
+
+example : (run ⟨3, 2, true, false⟩ State.init [.callBegin 1 [(10, 0)] false, .enter 1, .batch 1, .ctxCancel 1]).map
+    (fun s => s.calls.any fun x => x.cancelled && decide (x.phase = .waiting)) = some true := by decide
 
 end KV.C09
